@@ -212,6 +212,14 @@ def evaluate_unc(case):
             if dy is None:
                 if not np.all(u0 == 0.0):
                     fails.append(f"{X}_to_{Y}: uncertainty not zero when none supplied")
+                # ... whatever the function values are: a masked (NaN) or saturated (inf) bin has no uncertainty to propagate either
+                yb = y.copy()
+                yb[0] = np.nan
+                yb[-1] = np.inf
+                _, ub0 = conv(X, Y, x, yb, None, kw)
+                if ub0 is None or np.asarray(ub0).shape != y.shape or not np.all(np.asarray(ub0, dtype=float) == 0.0):
+                    fails.append(f"{X}_to_{Y}: uncertainty not zero when none supplied and the data hold a masked (NaN) or infinite value: "
+                                 f"{np.asarray(ub0, dtype=float).tolist()[:4] if ub0 is not None else None}")
                 continue
             exp = np.abs(slope(X, Y, np.where(pos, x, 1.0), kw, space)) * dy
             exp_all = np.abs(slope(X, Y, np.where(x > 0, x, 1.0), kw, space)) * dy
